@@ -22,7 +22,7 @@ def run(ctx):
         "Obs lines group the cut patterns that produced byte-identical echo replies (loss-free compression)",
     ]
     # ---- Leg D
-    w = 16
+    w = 6
     for proto in ("Http", "Scgi", "Fcgi"):
         ctx.design("Input/Input.tla", "Input%s_%s.cfg" % (proto, "quick" if q else "full"), workers=w, timeout=1500, heap="12g",
                    note="SegInv, CrossInv, Progress over all cuts of all short requests (%s mechanism)" % proto)
